@@ -422,7 +422,8 @@ MODES = ["implicit_tokens", "implicit_plain", "force_rooted", "force_unrooted"]
 
 @st.composite
 def sched_cases(draw, max_files, max_workers_extra):
-    s = draw(samples.samples(4, 6, 2, 6, weights=False))
+    ages = draw(st.integers(0, 3)) == 0
+    s = draw(samples.samples(4, 6, 2, 6, weights=False, ultrametric=ages))
     k = len(s["trees"])
     F = draw(st.integers(1, min(max_files, k)))
     cuts = sorted(draw(st.lists(st.integers(1, k - 1), min_size=F - 1, max_size=F - 1, unique=True))) if F > 1 else []
@@ -431,7 +432,10 @@ def sched_cases(draw, max_files, max_workers_extra):
             "arrival": list(draw(st.permutations(list(range(W))))), "mode": draw(st.sampled_from(MODES)),
             "rooted_tokens": draw(st.booleans()), "giveup": sorted(draw(st.sets(st.integers(0, W - 1), max_size=W))),
             # burn-in: the first `burnin` trees of EVERY file are skipped, however the files are distributed
-            "burnin": draw(st.sampled_from([0, 0, 1, 2]))}
+            "burnin": draw(st.sampled_from([0, 0, 1, 2])),
+            # node-age summarisation on ultrametric samples, under a drawn ultrametricity tolerance; with a relaxed
+            # tolerance one tip is off by a little less than it
+            "ages": ages, "prec": draw(st.sampled_from([1e-5, 1e-5, 0.01, 0.5])), "perturb": draw(st.booleans())}
 
 
 def check_schedule(ctx, case):
@@ -450,6 +454,15 @@ def check_schedule(ctx, case):
         flag, is_src_rooted = (None if not token_rooted else False), False
     sample["rooted"] = flag
     rts = samples.realise(sample)
+    ages = bool(case.get("ages")) and bool(sample.get("ultrametric"))
+    prec = case.get("prec", 1e-5) if ages else 1e-5
+    if ages:
+        ctx.cls("B:node_ages_summarised:prec=%g" % prec)
+        if case.get("perturb") and prec > 1e-4:
+            for rt in rts:
+                lf = rt.leaves()[0]
+                rt.length[lf] += prec / 8.0
+            ctx.cls("B:tips_off_by_less_than_the_tolerance")
     cuts = [0] + list(case["cuts"]) + [len(rts)]
     groups = [list(range(cuts[i], cuts[i + 1])) for i in range(len(cuts) - 1)]
     W = case["W"]
@@ -463,8 +476,8 @@ def check_schedule(ctx, case):
                     f.write(newick_of(rts[i], flag) + "\n")
             files.append(p)
         labels = ["T%d" % i for i in range(sample["n"])]
-        mk = lambda: sumtrees.TreeProcessor(is_source_trees_rooted=is_src_rooted, ignore_edge_lengths=False, ignore_node_ages=True,
-                                            use_tree_weights=True, ultrametricity_precision=1e-5, taxon_label_age_map=None,
+        mk = lambda: sumtrees.TreeProcessor(is_source_trees_rooted=is_src_rooted, ignore_edge_lengths=False, ignore_node_ages=not ages,
+                                            use_tree_weights=True, ultrametricity_precision=prec, taxon_label_age_map=None,
                                             num_processes=1, log_frequency=0, messenger=None, debug_mode=True)
         ns1 = dendropy.TaxonNamespace(labels)
         burnin = case.get("burnin", 0)
